@@ -68,12 +68,14 @@ Following(h, plans, a, b) ==
   ~\E w \in 1..Len(plans) : \E o \in Windows(plans[w]) :
        o.link = h.flip[a.link] /\ a.ae <= o.ae /\ o.ae <= b.ae
 
+HeadwayOk(h, a, b) ==
+  /\ (a.ce < INF => b.ae >= a.ce + h.spacing)      \* enters >= spacing after the leader's tail is inside
+  /\ (b.ax < INF => (a.cx < INF /\ b.ax >= a.cx + h.spacing))   \* leaves >= spacing after the leader has left
 HeadwayOf(h, plans) ==
   \A t \in 1..Len(plans) : \A u \in 1..Len(plans) : t # u =>
      \A a \in Windows(plans[t]) : \A b \in Windows(plans[u]) :
-        (a.link = b.link /\ (a.ae < b.ae \/ (a.ae = b.ae /\ t < u)) /\ Following(h, plans, a, b)) =>
-           /\ (a.ce < INF => b.ae >= a.ce + h.spacing)      \* enters >= spacing after the leader's tail is inside
-           /\ (b.ax < INF => (a.cx < INF /\ b.ax >= a.cx + h.spacing))   \* leaves >= spacing after the leader has left
+        (a.link = b.link /\ (a.ae < b.ae \/ (a.ae = b.ae /\ t < u))) =>
+           (HeadwayOk(h, a, b) \/ ~Following(h, plans, a, b))     \* cheap test first
 
 \* never change order inside a segment
 FifoOf(h, plans) ==
